@@ -350,6 +350,12 @@ def run_case(case, ctx):
         if "mic" in chosen:
             cellnow = np.diag(S.cell) * (np.array(opt["replicate"]) if opt.get("replicate") else 1)
             opt["mic"] = float(np.round(rng.uniform(0.3, 0.75) * cellnow.min(), 2))
+            if case["s"] % 3 == 0:
+                # a cut-off that one cell edge only just misses (or only just meets): 2*mic is k edge lengths, give or take 2e-4 of one
+                ax = int(rng.integers(3))
+                k = int(rng.integers(1, 3))
+                opt["mic"] = float(k * cellnow[ax] / 2 * (1 + [2e-4, -2e-4][case["s"] // 3 % 2]))
+                st.count("mic_values_within_a_few_1e-4_of_a_multiple_of_an_edge")
             opt["_mic_repls"] = np.array(np.ceil(2 * opt["mic"] / cellnow), dtype=int) if ortho else None
         if "charges" in chosen:
             opt["charges"] = [float(x) for x in np.round(rng.uniform(-2, 2, len(S)), 3)]
@@ -412,6 +418,8 @@ def requirements(stats, tier):
     for o in OPTS[:9] + ["replace_without_find"]:
         if not stats.has("option_exercised_singly", o):
             need.append("option class %s never exercised singly" % o)
+    if stats.get("mic_values_within_a_few_1e-4_of_a_multiple_of_an_edge") < (5 if tier == "quick" else 500):
+        need.append("--mic values that a cell edge only just misses or meets: %d" % stats.get("mic_values_within_a_few_1e-4_of_a_multiple_of_an_edge"))
     if stats.get("outputs_compared") < (180 if tier == "quick" else 30000):
         need.append("outputs compared: %d" % stats.get("outputs_compared"))
     io_ = stats.sets.get("io", set())
